@@ -21,7 +21,7 @@ SPEC = dict(
     assumptions=["expected message = template with placeholders replaced textually (own implementation)",
                  "templates contain no braces other than documented placeholders; OLD/NEW occur as separate words",
                  "real git: only messages that git's own whitespace/comment clean-up leaves unchanged are read back"],
-    required=["real_git_leading_dash_paths", "fake_git_runs", "fake_hg_runs", "real_git_runs", "k12_evaluations", "class:squote", "class:dquote",
+    required=["real_git_leading_dash_paths", "real_git_push_runs", "fake_git_runs", "fake_hg_runs", "real_git_runs", "k12_evaluations", "class:squote", "class:dquote",
               "class:backslash", "class:newline", "class:leading-dash", "class:dollar", "class:backtick",
               "hostile_paths_checked", "templates_from_config", "config_templates_with_OLD_NEW_words",
               "templates_from_setup_cfg", "ini_templates_with_percent", "empty_tag_message_from_config"],
@@ -335,11 +335,24 @@ def run_real(ctx, case):
         ctx.count("real_git_leading_dash_paths")
     files = build_project(R, names)
     d = harness.new_project(files)
+    remote = None
     try:
         git(d, "init", "-q", "-b", "main")
         git(d, "add", "-A")
         git(d, "commit", "-q", "-m", "init")
         args = ["update", "--patch", "--no-fetch", "--commit-message", cm, "--tag-message", tm]
+        if R.random() < 0.35:
+            # with --push: the message must not decide WHERE the commit is pushed. The branch has no upstream
+            # (pushed without -u), and the message opens with text that looks like git's `[remote/branch]` column.
+            remote = d + ".remote.git"
+            git(d, "init", "-q", "--bare", remote)
+            git(d, "remote", "add", "origin", remote)
+            git(d, "push", "-q", "origin", "main")
+            pre = R.choice(["[ci/skip] ", "[release/NEW] ", "[x/y] ", ""])
+            cm = pre + cm
+            want_cm = expand(cm, OLD, NEW, OLD_PEP, NEW_PEP)
+            args = ["update", "--patch", "--no-fetch", "--push", "--commit-message", cm, "--tag-message", tm]
+            ctx.count("real_git_push_runs")
         env = dict(GIT_ENV, HOME=d)
         res = harness.invoke(args, cwd=d, env=env)
         ctx.count("real_git_runs")
@@ -352,7 +365,9 @@ def run_real(ctx, case):
         del contracts.K12_WITNESSES[:]
         if res.exit_code != 0:
             crash = res.crash or ""
+            pushes = [e for e in res.errors() if "'push'" in e]
             ctx.violation("value_split_after_formatting" if ("quotation" in crash or "escaped character" in crash)
+                          else "commit_message_read_as_upstream_of_branch" if (remote and pushes and "origin" not in pushes[0])
                           else "other:real_git_update_fails", f"{args} paths={names}: exit {res.exit_code} "
                           f"{crash[:200] or res.errors()[-2:]} {res.stdout[-200:]}", case=case)
             return
@@ -369,8 +384,16 @@ def run_real(ctx, case):
         if changed != sorted(names + ["bumpver.toml"]):
             ctx.violation("other:staged_paths_not_verbatim", f"commit contains {changed}, configured {sorted(names + ['bumpver.toml'])}",
                           case=case)
+        if remote:
+            rtags = git(remote, "tag", "--list").split()
+            rhead = git(remote, "rev-parse", "main", check=False).strip()
+            if rtags != [NEW] or rhead != git(d, "rev-parse", "HEAD").strip():
+                ctx.violation("other:push_did_not_reach_origin", f"{args}: tags on origin {rtags}, origin/main {rhead[:8]}",
+                              case=case)
     finally:
         harness.rm_dir(d)
+        if remote:
+            harness.rm_dir(remote)
 
 
 def run_case(ctx, case):
